@@ -111,7 +111,7 @@ def main():
         ov = os.path.join(d, "overlay.json")
         json.dump({"Replace": {os.path.join("/repo", rel): mfile}}, open(ov, "w"))
         pkg = "./" + os.path.dirname(rel) if os.path.dirname(rel) else "."
-        t = run(["go", "test", "-overlay", ov, "-vet=off", "-count=1", pkg], cwd="/repo", env=dict(ENV, GOTOOLCHAIN="local"))
+        t = run(["go", "test", "-overlay", ov, "-vet=off", "-count=1", "-timeout", "120s", pkg], cwd="/repo", env=dict(ENV, GOTOOLCHAIN="local"))
         tests = "pass" if t.returncode == 0 else ("BUILD-FAIL" if "build failed" in t.stdout or "cannot" in t.stdout and "FAIL" not in t.stdout else "fail")
         t0 = time.time()
         c = run([os.path.join(ROOT, "check"), prop, "quick"], cwd=ROOT, env=dict(os.environ, VERIF_OVERLAY=ov, VERIF_SEED="1"))
